@@ -533,6 +533,11 @@ struct DocGen {
     alias_no: usize,
     /// probability (x/20) of a directive on a selection
     dir_rate: u64,
+    /// documents only the Fast validation mode accepts: repeated / malformed
+    /// @skip/@include, unknown directives, undeclared variables in conditions,
+    /// fragments on unrelated types
+    wild: bool,
+    zvars: Vec<(String, Option<bool>)>,
 }
 
 impl DocGen {
@@ -627,6 +632,35 @@ impl DocGen {
     fn dirs(&mut self, allow_var: bool) -> String {
         let mut s = String::new();
         if self.r.next() % 20 < self.dir_rate {
+            if self.wild {
+                let k = 1 + self.r.below(3);
+                for _ in 0..k {
+                    let d = ["skip", "include", "skip", "include", "foo"][self.r.below(5)];
+                    let c = match self.r.below(12) {
+                        0 | 1 => "(if: true)".to_string(),
+                        2 | 3 => "(if: false)".to_string(),
+                        4 => "(if: \"true\")".to_string(),
+                        5 => "(if: 1)".to_string(),
+                        6 => "(if: null)".to_string(),
+                        7 => "(if: [true])".to_string(),
+                        8 => String::new(),
+                        9 => "(x: true)".to_string(),
+                        10 if allow_var => {
+                            // undeclared variable, looked up in the request variables only
+                            let name = format!("z{}", self.r.below(3));
+                            if !self.zvars.iter().any(|(n, _)| *n == name) {
+                                let v = [Some(true), Some(false), None][self.r.below(3)];
+                                self.zvars.push((name.clone(), v));
+                            }
+                            format!("(if: ${name})")
+                        }
+                        _ if allow_var => format!("(if: {})", if self.r.chance(1, 2) { self.var('b') } else { self.var('a') }),
+                        _ => "(if: true)".to_string(),
+                    };
+                    write!(s, " @{d}{c}").unwrap();
+                }
+                return s;
+            }
             let two = self.r.chance(1, 6);
             let first_skip = self.r.chance(1, 2);
             for i in 0..(if two { 2 } else { 1 }) {
@@ -641,6 +675,14 @@ impl DocGen {
             }
         }
         s
+    }
+    fn cond_for(&mut self, ty: &str) -> &'static str {
+        if self.wild && self.r.chance(1, 3) {
+            ["Node", "A", "B", "Pet", "Cat", "Dog", "Leaf"][self.r.below(7)]
+        } else {
+            let conds = conds_for(ty);
+            *self.r.pick(&conds)
+        }
     }
     fn sels(&mut self, ty: &str, depth: usize) -> String {
         let mut out = String::from("{");
@@ -692,8 +734,7 @@ impl DocGen {
                 write!(out, " __typename{dirs}").unwrap();
                 emitted += 1;
             } else if k < 16 && depth > 0 {
-                let conds = conds_for(ty);
-                let c = *self.r.pick(&conds);
+                let c = self.cond_for(ty);
                 let dirs = self.dirs(true);
                 if self.r.chance(1, 4) {
                     let sub = self.sels(ty, depth - 1);
@@ -704,8 +745,7 @@ impl DocGen {
                 }
                 emitted += 1;
             } else if depth > 0 {
-                let conds = conds_for(ty);
-                let c = self.r.pick(&conds).to_string();
+                let c = self.cond_for(ty).to_string();
                 let reuse: Vec<String> = self.frags.iter().filter(|f| f.1 == c && !f.2.is_empty()).map(|f| f.0.clone()).collect();
                 let dirs = self.dirs(true);
                 if !reuse.is_empty() && self.r.chance(1, 2) {
@@ -729,7 +769,7 @@ impl DocGen {
     }
     fn document(&mut self) -> (String, serde_json::Value, Option<String>) {
         let depth = 1 + self.r.below(4);
-        let mutation = self.r.chance(1, 8);
+        let mutation = !self.wild && self.r.chance(1, 8);
         let body = self.sels(if mutation { "Mutation" } else { "Query" }, depth);
         let mut vars = serde_json::Map::new();
         let mut decls = vec![];
@@ -737,6 +777,11 @@ impl DocGen {
             decls.push(format!("${}: {}", v.name, v.decl));
             if let Some(x) = &v.value {
                 vars.insert(v.name.clone(), x.clone());
+            }
+        }
+        for (n, v) in &self.zvars {
+            if let Some(b) = v {
+                vars.insert(n.clone(), serde_json::json!(b));
             }
         }
         let vd = if decls.is_empty() { String::new() } else { format!("({})", decls.join(", ")) };
@@ -974,6 +1019,8 @@ fn main() {
     let mut it = Interner::new();
     let schema = Schema::build(Query, Mutation, EmptySubscription).directive(tag).finish();
     // same schema with an extension installed: add_set then takes the ResolveInfo branch
+    // Fast validation: only fragment cycles are rejected
+    let schema_fast = Schema::build(Query, Mutation, EmptySubscription).directive(tag).validation_mode(ValidationMode::Fast).finish();
     let schema_ext = Schema::build(Query, Mutation, EmptySubscription).directive(tag).extension(extensions::Analyzer).finish();
     let mut st = Stats { rejected: 0, errored: 0, emitted: 0 };
 
@@ -1022,15 +1069,33 @@ fn main() {
     for (text, vars, opn) in corpus.iter() {
         run_case(&schema, &mut it, &mut body, &mut st, text, vars, *opn, "corpus");
     }
+    let wild_corpus: Vec<(&str, serde_json::Value)> = vec![
+        ("{ node { id @skip label @skip(x: true) next @include { id } } }", j("{}")),
+        ("{ node { id @skip(if: \"true\") label @include(if: 1) a: id @include(if: null) b: id @skip(if: [true]) } }", j("{}")),
+        ("{ node { id @skip(if: $z) label @include(if: $z) } }", j("{\"z\": true}")),
+        ("{ node { id @skip(if: $z) label @include(if: $z) } }", j("{}")),
+        ("{ node { id @skip(if: false) @skip(if: true) label @include(if: true) @include(if: false) a: id @skip(if: false) @include(if: true) } }", j("{}")),
+        ("{ node { id @foo(a: 1) @skip(if: false) ... on Leaf { v } ... on Pet { ... on Cat { name } } ... on A { ... on Node { label } } } }", j("{}")),
+        ("query Q($a: Any) { node { id @skip(if: $a) label @include(if: $a) } }", j("{\"a\": true}")),
+        ("query Q($a: Any = true) { node { id @skip(if: $a) label @include(if: $a) } }", j("{}")),
+        ("query Q($a: Any) { node { id @skip(if: $a) label @include(if: $a) } }", j("{\"a\": \"true\"}")),
+        ("{ pet { ... on Node { id } ... on Dog { bark ... on Cat { meow } } ... on Cat { meow } } }", j("{}")),
+    ];
+    for (text, vars) in wild_corpus.iter() {
+        run_case(&schema_fast, &mut it, &mut body, &mut st, text, vars, None, "corpus fast");
+    }
     for (text, vars, opn) in corpus.iter().skip(2).step_by(3) {
         run_case(&schema_ext, &mut it, &mut body, &mut st, text, vars, *opn, "corpus ext");
     }
     let mut attempts = 0usize;
     while st.emitted < a.n && attempts < a.n * 20 {
         attempts += 1;
-        let mut dg = DocGen { r: rng.fork(), frags: vec![], vars: vec![], alias_no: 0, dir_rate: [0, 4, 6, 10][rng.below(4)] };
+        let wild = attempts % 4 == 1;
+        let mut dg = DocGen { r: rng.fork(), frags: vec![], vars: vec![], alias_no: 0, dir_rate: if wild { 10 } else { [0, 4, 6, 10][rng.below(4)] }, wild, zvars: vec![] };
         let (text, vars, opn) = dg.document();
-        if attempts % 3 == 0 {
+        if wild {
+            run_case(&schema_fast, &mut it, &mut body, &mut st, &text, &vars, opn.as_deref(), "gen fast");
+        } else if attempts % 3 == 0 {
             run_case(&schema_ext, &mut it, &mut body, &mut st, &text, &vars, opn.as_deref(), "gen ext");
         } else {
             run_case(&schema, &mut it, &mut body, &mut st, &text, &vars, opn.as_deref(), "gen");
